@@ -75,6 +75,10 @@ func main() {
 		enc, done := openOut(*out)
 		defer done()
 		flushFamily(*seed, *n, enc, *budget, *scen)
+	case "faults":
+		enc, done := openOut(*out)
+		defer done()
+		faultsFamily(*seed, *n, enc, *budget)
 	default:
 		fmt.Fprintln(os.Stderr, "unknown family "+fam)
 		os.Exit(2)
